@@ -7,15 +7,37 @@ N = int(sys.argv[2]) if len(sys.argv) > 2 else 300
 names = ["a", "b", "ab", "a.c", "b.c", ".h", "a b", "a-b", "c", "A", "a.", "x"]
 dirs = ["d", "e", "d/e", "d/d", "e/d", ".g", "d/.g"]
 pieces = ["a", "b", "*", "?", "**", "/", "[ab]", "[!a]", "[a-c]", ".c", "d", "e", "*.c", "\\*", "\\ ", "!", "a b", ".", "A", "x", "#", "\\#", "\\!"]
-def gen_pattern():
+def gen_pattern(files=(), dirs_=()):
+    if files and random.random() < 0.8:
+        path = random.choice(sorted(files) + [d for d in dirs_ if d])
+        comps = path.split("/")
+        k = random.random()
+        base = comps[-1]
+        def wild(b):
+            r_ = random.random()
+            if r_ < 0.2 and len(b) > 0: i = random.randrange(len(b)); return b[:i] + "?" + b[i+1:]
+            if r_ < 0.4 and len(b) > 0: i = random.randrange(len(b)); return b[:i] + "*"
+            if r_ < 0.5 and len(b) > 0: return "*" + b[1:]
+            if r_ < 0.6 and len(b) > 0: return "[" + b[0] + "x]" + b[1:]
+            if r_ < 0.7 and len(b) > 0: return "[!" + ("b" if b[0] != "b" else "a") + "]" + b[1:]
+            if r_ < 0.75 and len(b) > 0: return "[a-z]" + b[1:] if b[0].isalpha() else b
+            if r_ < 0.8: return b.replace(" ", "\\ ")
+            return b
+        if k < 0.3: p = wild(base)
+        elif k < 0.5: p = "/".join(comps[:-1] + [wild(base)])
+        elif k < 0.6: p = "**/" + wild(base)
+        elif k < 0.7 and len(comps) > 1: p = comps[0] + "/**/" + wild(base)
+        elif k < 0.8 and len(comps) > 1: p = "/".join(comps[:-1]) + "/**"
+        elif k < 0.9 and len(comps) > 1: p = wild(comps[0]) + "/" + "/".join(comps[1:])
+        else: p = "*/" + wild(base)
+        if random.random() < 0.25: p = "!" + p
+        if random.random() < 0.2: p = "/" + p.lstrip("!") if not p.startswith("!") else "!/" + p[1:]
+        if random.random() < 0.15: p = p + "/"
+        if random.random() < 0.05: p = p + "  "
+        return p
     n = random.randint(1, 4)
     p = "".join(random.choice(pieces) for _ in range(n))
     if random.random() < 0.2: p = "!" + p
-    if random.random() < 0.2: p = "/" + p
-    if random.random() < 0.2: p = p + "/"
-    if random.random() < 0.1: p = "**/" + p
-    if random.random() < 0.1: p = p + "/**"
-    if random.random() < 0.05: p = p + " "
     return p
 diffs = 0; IGN = 0
 seen = set()
@@ -35,12 +57,20 @@ for it in range(N):
                 open(os.path.join(root, p), "w").write("x\n"); files.add(p)
     ig = {}
     for d in random.sample(alld, random.randint(1, min(3, len(alld)))):
-        lines = [gen_pattern() for _ in range(random.randint(1, 4))]
+        sub = {f_[len(d)+1:] if d else f_ for f_ in files if (f_.startswith(d + '/') if d else True)}
+        subd = {x[len(d)+1:] if d else x for x in alld if x and (x.startswith(d + '/') if d else True)}
+        lines = [gen_pattern(sub, sorted(subd)) for _ in range(random.randint(1, 5))]
         ig[d] = lines
         open(os.path.join(root, d, ".gitignore"), "w").write("\n".join(lines) + "\n")
     g = subprocess.run(["git", "-C", root, "ls-files", "-o", "--exclude-standard", "-z"], stdout=subprocess.PIPE)
     gitset = {x.decode() for x in g.stdout.split(b"\0") if x}
-    r = subprocess.run([RG, "--files", "--hidden", "--no-ignore-global", "--no-ignore-parent", "-0", "-j1", "--no-messages", "-g", "!.git/"], cwd=root, stdout=subprocess.PIPE, stderr=subprocess.PIPE, stdin=subprocess.DEVNULL)
+    subroot = random.choice([x for x in alld if x] + [""]) if random.random() < 0.6 else ""
+    if subroot:
+        if subprocess.run(["git", "-C", root, "check-ignore", "-q", subroot]).returncode == 0:
+            subroot = ""   # an explicitly named root is always searched, git is no oracle below an ignored directory
+    if subroot:
+        gitset = {x for x in gitset if x.startswith(subroot + "/")}
+    r = subprocess.run([RG, "--files", "--hidden", "--no-ignore-global", "-0", "-j1", "--no-messages", "-g", "!.git/"] + ([subroot] if subroot else []), cwd=root, stdout=subprocess.PIPE, stderr=subprocess.PIPE, stdin=subprocess.DEVNULL)
     rgset = {x.decode() for x in r.stdout.split(b"\0") if x}
     IGN += len(files | {".gitignore"}) - len(gitset) if True else 0
     if gitset != rgset:
